@@ -316,9 +316,11 @@ func (s *script) step() {
 		if rng.Chance(1, 8) {
 			min = types.ZeroCurrency
 		}
-		s.split(n, min)
+		s.split(n, min, rng.Chance(1, 4))
 	case r < 94:
 		if rng.Chance(1, 4) {
+			s.storeFails()
+		} else if rng.Chance(1, 4) {
 			s.stale()
 		} else {
 			s.restart(rng.Bool())
